@@ -775,11 +775,19 @@ func Plain(r *vlib.Rand) ([]byte, string) {
 // Input picks an input for layer type t.
 func (c *Corpus) Input(r *vlib.Rand, t gopacket.LayerType) ([]byte, string) {
 	seeds := c.Seeds[t]
+	// the first seeds of a type are the hand-made ones (one per record / chunk / option kind) and the fixtures that decode
+	// furthest: one pick in three comes from them, so that a check with few inputs per type still meets them
+	pick := func() []byte {
+		if r.Chance(1, 3) {
+			return seeds[r.Intn(min(len(seeds), 4))]
+		}
+		return seeds[r.Intn(len(seeds))]
+	}
 	switch {
 	case len(seeds) > 0 && r.Chance(1, 8):
-		return seeds[r.Intn(len(seeds))], "seed"
+		return pick(), "seed"
 	case len(seeds) > 0 && r.Chance(5, 7):
-		return c.Mutate(r, seeds[r.Intn(len(seeds))])
+		return c.Mutate(r, pick())
 	case len(c.All) > 0 && r.Chance(1, 3):
 		return c.Mutate(r, c.All[r.Intn(len(c.All))])
 	}
@@ -1009,7 +1017,13 @@ func dnsZoo() [][]byte {
 			rr(ex, 65, 1, 300, svc), rr(ex, 64, 1, 300, cat(u16(0), name("alias", "example", "com")))},
 		[][]byte{rr(name("7", "2", "0", "192", "in-addr", "arpa"), 12, 1, 300, www), rr(ex, 13, 1, 300, cat(cs("PDP-11"), cs("UNIX")))},
 		nil)
-	return [][]byte{one, two}
+	// small sections (the reflective renderers print the records of a section of up to four in full): a TXT record
+	// of three character-strings, a NULL-ish unknown type, an OPT record with two options
+	three := msg(0x7777, cat(www, u16(16), u16(1)),
+		[][]byte{rr(www, 16, 1, 60, cat(cs("v=spf1"), cs("include:example.net"), cs("-all")))},
+		nil,
+		[][]byte{rr([]byte{0}, 41, 1232, 0, cat(u16(10), u16(8), []byte{1, 2, 3, 4, 5, 6, 7, 8}, u16(12), u16(3), []byte{0, 0, 0})), rr(ex, 99, 1, 5, []byte{3, 'a', 'b', 'c'})})
+	return [][]byte{one, two, three}
 }
 
 // LongRepeats returns k variants of seed in which a short region (1..32 bytes at a PRNG position) is repeated until the
